@@ -3,11 +3,64 @@
 package csproto
 
 import (
+	"reflect"
+
 	"github.com/gogo/protobuf/gogoproto"
 	gogodesc "github.com/gogo/protobuf/protoc-gen-gogo/descriptor"
+	"google.golang.org/protobuf/proto"
+	"google.golang.org/protobuf/reflect/protodesc"
+	"google.golang.org/protobuf/reflect/protoreflect"
+	"google.golang.org/protobuf/reflect/protoregistry"
 	"google.golang.org/protobuf/types/descriptorpb"
+	"google.golang.org/protobuf/types/dynamicpb"
 	"google.golang.org/protobuf/types/gofeaturespb"
 )
+
+// c12DynExts (native mode only): scalar / string / bool / bytes / enum-free extensions of the real v2 message
+// descriptorpb.FeatureSet, built at run time (numbers from its "internal testing" range)
+func c12DynExts() []protoreflect.ExtensionType {
+	opt := descriptorpb.FieldDescriptorProto_LABEL_OPTIONAL.Enum()
+	mk := func(name string, num int32, t descriptorpb.FieldDescriptorProto_Type) *descriptorpb.FieldDescriptorProto {
+		return &descriptorpb.FieldDescriptorProto{Name: proto.String(name), Number: proto.Int32(num), Type: t.Enum(), Label: opt, Extendee: proto.String(".google.protobuf.FeatureSet")}
+	}
+	fd := &descriptorpb.FileDescriptorProto{
+		Name: proto.String("c12dyn.proto"), Package: proto.String("c12dyn"), Syntax: proto.String("proto2"),
+		Dependency: []string{"google/protobuf/descriptor.proto"},
+		Extension: []*descriptorpb.FieldDescriptorProto{
+			mk("dyn_i", 9995, descriptorpb.FieldDescriptorProto_TYPE_INT32), mk("dyn_s", 9996, descriptorpb.FieldDescriptorProto_TYPE_STRING),
+			mk("dyn_b", 9997, descriptorpb.FieldDescriptorProto_TYPE_BOOL), mk("dyn_y", 9998, descriptorpb.FieldDescriptorProto_TYPE_BYTES),
+		},
+	}
+	f, err := protodesc.NewFile(fd, protoregistry.GlobalFiles)
+	if err != nil {
+		panic(err)
+	}
+	var out []protoreflect.ExtensionType
+	for i := 0; i < f.Extensions().Len(); i++ {
+		out = append(out, dynamicpb.NewExtensionType(f.Extensions().Get(i)))
+	}
+	return out
+}
+
+// c12NativeScalars: explicit presence - a scalar extension set to its zero value is set, and reads back as that value
+func c12NativeScalars() {
+	exts := c12DynExts()
+	vals := [][]interface{}{{int32(0), int32(7)}, {"", "x"}, {false, true}, {[]byte{}, []byte{1}}}
+	for i, x := range exts {
+		for _, v := range vals[i] {
+			m := &descriptorpb.FeatureSet{}
+			verifAssert(SetExtension(m, x, v) == nil, "native: SetExtension of a scalar extension succeeds")
+			verifAssert(HasExtension(m, x), "native: after SetExtension (zero values included) HasExtension is true")
+			got, err := GetExtension(m, x)
+			verifAssert2(err == nil, got != nil && reflect.DeepEqual(got, v), "native: GetExtension returns the value set (zero values included)")
+			want, _ := proto.Marshal(m)
+			have, merr := Marshal(m)
+			verifAssert2(merr == nil, string(have) == string(want), "native: the set extension appears in the marshaled bytes")
+			ClearExtension(m, x)
+			verifAssert(!HasExtension(m, x), "native: after ClearExtension HasExtension is false")
+		}
+	}
+}
 
 // C12 — extension accessors (level: other; dispatch + contract stubs).
 //
@@ -97,7 +150,7 @@ func H_C12_Has() {
 			verifAssert(verifCalled("github.com/golang/protobuf/proto.HasExtension"), "the v1 runtime answers for a v1 message")
 		}
 	} else {
-		verifAssert(!has, "a fresh message has no extension set")
+		verifAssert(!has, "native: a fresh message has no extension set")
 	}
 	verifReach("end")
 }
@@ -149,26 +202,29 @@ func H_C12_Set() {
 			verifAssert(verifCalled("github.com/golang/protobuf/proto.SetExtension"), "v1 SetExtension")
 		}
 	} else if mk != c12MsgLegacy {
+		if mk == c12MsgV2 {
+			c12NativeScalars()
+		}
 		// the real runtimes: coherence laws on a real message
-		verifAssert(err == nil, "SetExtension succeeds on a matching pair")
-		verifAssert(HasExtension(m, x), "after SetExtension, HasExtension is true")
+		verifAssert(err == nil, "native: SetExtension succeeds on a matching pair")
+		verifAssert(HasExtension(m, x), "native: after SetExtension, HasExtension is true")
 		got, gerr := GetExtension(m, x)
-		verifAssert2(gerr == nil, got != nil, "after SetExtension, GetExtension returns a value")
+		verifAssert2(gerr == nil, got != nil, "native: after SetExtension, GetExtension returns a value")
 		n := 0
 		rerr := RangeExtensions(m, func(value interface{}, name string, field int32) error {
 			n++
 			num, _ := ExtensionFieldNumber(x)
-			verifAssert(int(field) == num, "RangeExtensions reports the declared field number")
+			verifAssert(int(field) == num, "native: RangeExtensions reports the declared field number")
 			return nil
 		})
-		verifAssert2(rerr == nil, n == 1, "RangeExtensions visits exactly the set extension")
+		verifAssert2(rerr == nil, n == 1, "native: RangeExtensions visits exactly the set extension")
 		ClearExtension(m, x)
-		verifAssert(!HasExtension(m, x), "after ClearExtension, HasExtension is false")
-		verifAssert(SetExtension(m, x, val) == nil, "set again")
+		verifAssert(!HasExtension(m, x), "native: after ClearExtension, HasExtension is false")
+		verifAssert(SetExtension(m, x, val) == nil, "native: set again")
 		ClearAllExtensions(m)
-		verifAssert(!HasExtension(m, x), "after ClearAllExtensions, HasExtension is false")
+		verifAssert(!HasExtension(m, x), "native: after ClearAllExtensions, HasExtension is false")
 		b, merr := Marshal(m)
-		verifAssert2(merr == nil, len(b) == 0, "a cleared extension no longer appears in the marshaled bytes")
+		verifAssert2(merr == nil, len(b) == 0, "native: a cleared extension no longer appears in the marshaled bytes")
 	}
 	verifReach("end")
 }
@@ -219,7 +275,7 @@ func H_C12_FieldNumber() {
 	switch xk {
 	case c12ExtV2:
 		if verifNative() {
-			verifAssert2(err == nil, n == 1002, "declared number of pb.go")
+			verifAssert2(err == nil, n == 1002, "native: declared number of pb.go")
 		} else {
 			verifAssert(err == nil, "a v2 / v1 descriptor has a number")
 		}
